@@ -195,6 +195,21 @@ def type_name(variable_type: type) -> str:
         return 'object'
 
 
+def placeholder(value) -> str:
+    """
+    Get the text we use for a value that cannot be shown.
+
+    Formatting the type runs the __repr__ of its metaclass - application code again, that can fail as well.
+
+    :param value: the value
+    :return: the type and the id of the value
+    """
+    try:
+        return f'{type(value)}@{id(value)}'
+    except BaseException:
+        return "<class '%s'>@%s" % (type_name(type(value)), id(value))
+
+
 def variable_to_string(variable_type, var_value):
     """
     Convert the variable to a string.
@@ -205,7 +220,10 @@ def variable_to_string(variable_type, var_value):
     """
     if type_name(variable_type) in ITER_LIKE_TYPES:
         # if interator like then make a custom string - we do not want to mess with iterators
-        return 'Iterator of type: %s' % variable_type
+        try:
+            return 'Iterator of type: %s' % variable_type
+        except BaseException:
+            return "Iterator of type: <class '%s'>" % type_name(variable_type)
     elif variable_type is dict \
             or type_name(variable_type) in LIST_LIKE_TYPES:
         # if we are a collection then we do not want to use built in string as this can be very
@@ -214,14 +232,14 @@ def variable_to_string(variable_type, var_value):
             return 'Size: %s' % len(var_value)
         except BaseException:
             # we match the collection types by name, so this can be a user type of the same name that has no length
-            return f'{type(var_value)}@{id(var_value)}'
+            return placeholder(var_value)
     else:
         try:
             # everything else just gets a string value
             return str(var_value)
         except BaseException:
             # it is possible for str to fail if there is a custom __str__ function
-            return f'{type(var_value)}@{id(var_value)}'
+            return placeholder(var_value)
 
 
 def process_variable(var_collector: Collector, node: NodeValue) -> VariableResponse:
@@ -412,7 +430,7 @@ def __key_name(key) -> str:
     try:
         return str(key)
     except BaseException:
-        return f'{type(key)}@{id(key)}'
+        return placeholder(key)
 
 
 def process_list_breadth_first(var_collector: Collector, parent_node: ParentNode, value) -> List[Node]:
